@@ -76,6 +76,7 @@ pub fn programs(max_len: usize, allow_send: bool) -> Vec<Program> {
 
 fn read_and_check(s: &ArcStr) {
     stats::op();
+    stats::event("reads the text");
     let got = s.as_ref();
     if got != TEXT {
         panic!("ORACLE: text read through a live handle differs from what was stored");
@@ -89,28 +90,36 @@ fn run_program(first: ArcStr, prog: &Program) {
         match op {
             Op::Clone => {
                 stats::op();
+                stats::event("clones a handle");
                 let c = held[0].clone();
                 held.push(c);
             }
             Op::Read => read_and_check(held.last().expect("valid program")),
             Op::Drop => {
                 stats::op();
+                stats::event("drops a handle");
                 drop(held.pop().expect("valid program"));
+                stats::event("drop returned");
             }
             Op::Send => {
                 stats::op();
+                stats::event("clones a handle and sends it to a new thread");
                 let c = held[0].clone();
                 spawned.push(thread::spawn(move || {
                     read_and_check(&c);
                     stats::op();
+                    stats::event("drops the received handle");
                     drop(c);
+                    stats::event("drop returned");
                 }));
             }
         }
     }
     for h in held {
         stats::op();
+        stats::event("drops a handle (end of program)");
         drop(h);
+        stats::event("drop returned");
     }
     for j in spawned {
         j.join().expect("thread panicked");
@@ -133,6 +142,7 @@ fn body(progs: &[Program]) {
     if shim::live() != 0 {
         panic!("ORACLE: text storage leaked (still allocated after every handle was dropped)");
     }
+    shim::finish();
     stats::count("executions_ending_with_storage_freed");
 }
 
